@@ -195,6 +195,8 @@ def compare_models(Py, F, tier, acc=None):
         kw = dict(max_iter=max_iter, tol=tol, failures=failures)
         ra, rb = outcome(a.solve_t, t, **kw), outcome(b.solve_t, t, **kw)
         n += 1
+        if ra[0] == 'SolutionError' or not np.all(np.isfinite(a.values)):
+            continue  # the all-zero start divides by zero in the PYTHON run: values do not stay finite, outside the property
         if ra != rb or a.status.tolist() != b.status.tolist() or a.iterations.tolist() != b.iterations.tolist() or not close(a.values, b.values, 1e-13):
             note('solve_t:exact-tolerance', dict(kw=kw, python=ra, fortran=rb, iterations=[a.iterations.tolist(), b.iterations.tolist()]))
     for vec in (0, 1):
@@ -211,8 +213,10 @@ def compare_models(Py, F, tier, acc=None):
                                                                           maxdiff=float(np.nanmax(np.abs(a.values - b.values)))))
             elif not same_iter and not knife_edge(Py, vec, L, t, kw, a):
                 note('solve_t:iterations', dict(t=t, kw=kw, iterations=[a.iterations.tolist(), b.iterations.tolist()]))
-        for start, end, offset, failures, max_iter in itertools.product((None, Py.LAGS + 1), (None, L - 2 - Py.LEADS), (0, -1), ('raise', 'ignore'), (3, 60)):
-            a, b = fill(Py(range(L)), vec, L), fill(F(range(L)), vec, L)
+        # the span holds the label 0 (a falsy label) at position 2: an explicit start=0 / end=0 is a request like any other
+        lab = list(range(-2, L - 2))
+        for start, end, offset, failures, max_iter in itertools.product((None, 0, lab[Py.LAGS + 1]), (None, 0, lab[L - 2 - Py.LEADS]), (0, -1), ('raise', 'ignore'), (3, 60)):
+            a, b = fill(Py(lab), vec, L), fill(F(lab), vec, L)
             kw = dict(start=start, end=end, max_iter=max_iter, tol=1e-9, offset=offset, failures=failures)
             ra, rb = outcome(a.solve, **kw), outcome(b.solve, **kw)
             n += 1
